@@ -54,6 +54,15 @@ Definition run_C20 (i : term) : term :=
        final value of field i are thread i's last written value *)
     let r := Z.to_nat (gz (gn i 2)) in
     TL [TL (map (fun _ => of_zs (repeat 1 r)) (gl (gn i 1))); of_zs (map (fun _ => 1) (gl (gn i 1)))]
+  else if String.eqb op "errpaths" then
+    (* whether configure rejects an assignment depends on (name, value) only; once an operation has
+       returned no lock is held (end condition of [wl]) and nobody is ever blocked (no_deadlock) *)
+    TL [TL (map (fun th => TL (map (fun o => TL [of_bool (conf_rejects (gs (gn o 0)) (gs (gn o 1))); TL []]) (gl th)))
+                (gl (gn i 1))); TZ 0; TL []]
+  else if String.eqb op "registry" then
+    (* registry_never_loses_a_file: after the final cleanup (registry empty) no registered file is on
+       disk; each file is registered once and removed once, so no os.Remove fails; no lock left held *)
+    TL [TZ 0; TZ 0; TL []]
   else if String.eqb op "cow" then TZ 1
   else TL [TS "unknown-op"].
 
@@ -76,6 +85,8 @@ Definition spec_C20 (i o : term) : bool :=
   else if String.eqb op "once" then term_eqb (run_C20 i) o      (* every caller sees the one base *)
   else if String.eqb op "settings" then term_eqb (run_C20 i) o  (* no lost update, no stray temp file *)
   else if String.eqb op "fetch" then term_eqb (run_C20 i) o
+  else if String.eqb op "errpaths" then term_eqb (run_C20 i) o   (* rejected like one at a time, nothing blocked, no lock leaked *)
+  else if String.eqb op "registry" then term_eqb (run_C20 i) o   (* no registered file leaked, no cleanup failed *)
   else if String.eqb op "fields" then term_eqb (run_C20 i) o     (* no lost update: every field holds what its owner wrote *)
   else if String.eqb op "web" then all_equal_seq (gzs (gn o 0)) (gz (gn i 1))
   else true.
